@@ -91,6 +91,12 @@ static std::string body(const WCase& c) {
 	const uint64_t N = randomx_dataset_item_count();
 	// disjoint dataset ranges: thread t, j-th init op gets range slot (t*8+j)
 	const uint64_t slotItems = 1024;
+	// the end of the dataset goes to the first T_INITDS step (in thread order) whose first operand is a multiple of 11 - at most one per
+	// workload: two of them would be overlapping ranges, which the property excludes (an earlier version let every such step take the end;
+	// two threads then wrote the same last items and ThreadSanitizer rightly reported it - a false alarm of the harness, found when the
+	// dataset-initialisation-heavy workloads made the coincidence frequent)
+	const Step* endOwner = nullptr;
+	for (auto& t : c.threads) { for (auto& k : t) if (!endOwner && k.op == T_INITDS && k.a % 11 == 0) endOwner = &k; }
 	int before = tsanReports.load();
 	std::vector<std::string> errs(c.threads.size());
 	std::vector<std::vector<std::pair<uint64_t, uint64_t>>> ranges(c.threads.size());
@@ -108,7 +114,7 @@ static std::string body(const WCase& c) {
 				int mk = memoKey(vmFlags); if (d0 != seqMemo[{a, mk}] || d1 != seqMemo[{b, mk}]) errs[t] = "batch digests computed concurrently differ from the sequential results"; break; }
 			case T_DESTROY: { if (vm) { randomx_destroy_vm(vm); vm = nullptr; } break; }
 			case T_INITDS: { if (dsOps >= 8) break; uint64_t slot = t * 8 + dsOps++; uint64_t start = (slot * 7919 * slotItems) % (N - 2 * slotItems); start = start / slotItems * slotItems + (k.a % 3); uint64_t count = 1 + (uint64_t)k.b % (slotItems - 8);
-				if (k.a % 11 == 0) { start = N - count; }   // one thread may get the end of the dataset
+				if (&k == endOwner) { start = N - count; }   // exactly one operation of the workload gets the end of the dataset (ranges must stay disjoint)
 				randomx_init_dataset(&sparseDs, sharedCache[c.dsJit ? 1 : 0], start, count); ranges[t].emplace_back(start, count); break; }
 			case T_OWNCACHE: { randomx_cache* own = randomx_alloc_cache((randomx_flags)((k.a & 1) ? RANDOMX_FLAG_JIT : 0)); if (!own) { errs[t] = "private cache allocation failed"; break; } char key[24]; snprintf(key, sizeof key, "private %d %d", (int)t, k.b & 3); randomx_init_cache(own, key, strlen(key)); if (k.b & 4) { key[0] = 'q'; randomx_init_cache(own, key, strlen(key)); } randomx_release_cache(own); break; }
 			default: { for (int i = 0; i < (k.a & 15); ++i) sched_yield(); volatile int spin = 0; for (int i = 0; i < (k.b & 255) * 64; ++i) spin += i; break; }
@@ -145,25 +151,32 @@ static std::string body(const WCase& c) {
 	return "";
 }
 
-static rc::Gen<WCase> genWorkload(bool ownCache) {
+// mode 0: mixed workload; 1: mixed + private cache lifecycles; 2: dataset-initialisation heavy (many short ranges, counts 1..12, so that
+// the short-range and tail paths of several threads overlap in time - both oracles get their chance: TSan and the item comparison)
+static rc::Gen<WCase> genWorkload(int mode) {
 	using namespace rc;
-	auto stepGen = gen::apply([ownCache](int w, int a, int b) {
+	const bool ownCache = mode == 1;
+	auto stepGen = gen::apply([ownCache, mode](int w, int a, int b) {
 		static const int table[] = {T_CREATE, T_CREATE, T_HASH, T_HASH, T_HASH, T_BATCH, T_DESTROY, T_INITDS, T_INITDS, T_YIELD, T_YIELD, T_OWNCACHE};
-		int op = table[w % 12]; if (op == T_OWNCACHE && !ownCache) op = T_HASH;
+		static const int dsTable[] = {T_INITDS, T_INITDS, T_INITDS, T_INITDS, T_INITDS, T_INITDS, T_INITDS, T_INITDS, T_HASH, T_YIELD, T_INITDS, T_INITDS};
+		int op = mode == 2 ? dsTable[w % 12] : table[w % 12]; if (op == T_OWNCACHE && !ownCache) op = T_HASH;
+		if (mode == 2 && op == T_INITDS) b = b % 12;
 		return Step{op, a, b};
 	}, gen::inRange(0, 12), gen::inRange(0, 256), gen::inRange(0, 1024));
-	return gen::resize(100, gen::apply([](std::vector<std::vector<Step>> th, std::vector<Bytes> in, int dsJit, int first, int fresh) {
+	return gen::resize(100, gen::apply([mode](std::vector<std::vector<Step>> th, std::vector<Bytes> in, int dsJit, int first, int fresh) {
 		WCase c; c.inputs = in; c.dsJit = dsJit; c.fresh = fresh;
 		if (th.size() < 2) th.resize(2); if (th.size() > 8) th.resize(8);
-		for (auto& t : th) { if (t.size() > 6) t.resize(6); t.insert(t.begin(), Step{T_CREATE, first + (int)(&t - &th[0]), 0}); int owns = 0; for (auto& k : t) if (k.op == T_OWNCACHE && ++owns > 1) k.op = T_YIELD; }
+		if (mode == 2) { if (th.size() < 4) th.resize(4); c.dsJit = 0; c.fresh = 0; }   // interpreted initialiser: its stores are visible to TSan (JIT-emitted stores are not)
+		for (auto& t : th) { if (mode == 2) { while (t.size() < 7) t.push_back(Step{T_INITDS, (int)t.size() * 7 + 1, (int)t.size() + 1}); } if (t.size() > 7) t.resize(7); if (mode != 2 && t.size() > 6) t.resize(6); t.insert(t.begin(), Step{T_CREATE, first + (int)(&t - &th[0]), 0}); int owns = 0; for (auto& k : t) if (k.op == T_OWNCACHE && ++owns > 1) k.op = T_YIELD; }
 		c.threads = th;
 		return c;
 	}, gen::container<std::vector<std::vector<Step>>>(gen::container<std::vector<Step>>(stepGen)), gen::container<std::vector<Bytes>>(3, vg::genBytesLen(gen::inRange(0, 80))), gen::inRange(0, 2), gen::inRange(0, NVMFLAGS), gen::inRange(0, 2)));
 }
 
 int main(int argc, char** argv) {
-	vh::registerCheck<WCase>("workload", [] { return genWorkload(false); }, body, true, nullptr, 4);
-	vh::registerCheck<WCase>("workload_owncache", [] { return genWorkload(true); }, body, true, nullptr, 2);
+	vh::registerCheck<WCase>("workload", [] { return genWorkload(0); }, body, true, nullptr, 4);
+	vh::registerCheck<WCase>("workload_owncache", [] { return genWorkload(1); }, body, true, nullptr, 2);
+	vh::registerCheck<WCase>("workload_dsinit", [] { return genWorkload(2); }, body, true, nullptr, 2);
 	return vh::harnessMain(argc, argv, [] {
 		sharedCache[0] = randomx_alloc_cache(RANDOMX_FLAG_DEFAULT); sharedCache[1] = randomx_alloc_cache(RANDOMX_FLAG_JIT);
 		randomx_init_cache(sharedCache[0], KEY, sizeof KEY - 1); randomx_init_cache(sharedCache[1], KEY, sizeof KEY - 1);
